@@ -104,14 +104,14 @@ type jnode struct {
 	vals []*jnode
 }
 
-func jn() *jnode                   { return &jnode{k: jNull} }
-func jb(b bool) *jnode             { return &jnode{k: jBool, b: b} }
-func jint(v int64) *jnode          { return &jnode{k: jNum, m: v} }
-func jdec(m, e int64) *jnode       { return &jnode{k: jNum, m: m, e: e} }
-func js(s string) *jnode           { return &jnode{k: jStr, s: s} }
-func jarr(l ...*jnode) *jnode      { return &jnode{k: jArr, arr: l} }
-func jobj() *jnode                 { return &jnode{k: jObj} }
-func jfloat(f float64) *jnode      { m, e := floatDec(f); return jdec(m, e) }
+func jn() *jnode              { return &jnode{k: jNull} }
+func jb(b bool) *jnode        { return &jnode{k: jBool, b: b} }
+func jint(v int64) *jnode     { return &jnode{k: jNum, m: v} }
+func jdec(m, e int64) *jnode  { return &jnode{k: jNum, m: m, e: e} }
+func js(s string) *jnode      { return &jnode{k: jStr, s: s} }
+func jarr(l ...*jnode) *jnode { return &jnode{k: jArr, arr: l} }
+func jobj() *jnode            { return &jnode{k: jObj} }
+func jfloat(f float64) *jnode { m, e := floatDec(f); return jdec(m, e) }
 func (o *jnode) set(k string, v *jnode) *jnode {
 	o.keys = append(o.keys, k)
 	o.vals = append(o.vals, v)
